@@ -640,6 +640,60 @@ theorem minv_stepGo {s : State} (h : MInv s) (t : Nat) : MInv (stepGo s t).1 := 
   | needNew fid sz => exact minv_go_new h t fid sz ht rfl rfl rfl rfl rfl rfl (fun u => rfl)
   | needPriv fid sz => exact minv_go_priv h t fid sz ht rfl rfl rfl rfl rfl rfl (fun u => rfl)
 
+/-- growth, second half, `operator new` throws: the holder leaves an empty storage and gives `_busy` back -/
+theorem minv_go_fail_new {s s' : State} (h : MInv s) (t fid sz : Nat) (ht : s.pc t = Pc.needNew fid sz)
+    (hheap : s'.heap = s.heap) (hfr : s'.frames = s.frames) (hptr : s'.ptr = none) (hcap : s'.cap = 0)
+    (hbusy : s'.busy = false) (hdang : s'.dangling = false)
+    (hpc : ∀ u, s'.pc u = if u = t then Pc.idle else s.pc u) : MInv s' := by
+  have hth : (s.pc t).holder = true := by rw [ht]; rfl
+  have hallp := h.holder_noshared t hth
+  have hown : owned s = [] := by
+    rcases h.needNew_ptr t fid sz ht with hd | hn
+    · simp [owned, hd]
+    · simp [owned, hn]
+  have hnoh : ∀ u, (s'.pc u).holder = false := by
+    intro u
+    rw [hpc u]
+    by_cases e : u = t
+    · simp [e, Pc.holder]
+    · simp only [e, if_false]
+      cases hh : (s.pc u).holder with
+      | false => rfl
+      | true => exact absurd (h.holder_unique u t hh hth) e
+  refine ⟨?_, ?_, ?_, ?_, ?_, ?_, ?_, ?_, ?_, ?_, ?_, ?_, ?_⟩
+  · rw [hheap]; exact h.once
+  · intro b
+    have h1 := h.noleak b
+    rw [hown] at h1
+    rw [hheap, hfr]
+    simp only [owned, hdang, hptr, Option.toList, Bool.false_eq_true, if_false]
+    exact h1
+  · rw [hheap, hfr]; exact h.fits
+  · rw [hfr]; exact h.excl
+  · intro f hf hq; rw [hfr] at hf; rw [hallp f hf] at hq; cases hq
+  · intro _ p hp; rw [hptr] at hp; cases hp
+  · intro _; exact hcap
+  · intro u v hu _; rw [hnoh u] at hu; cases hu
+  · intro u hu; rw [hnoh u] at hu; cases hu
+  · rw [hbusy, hfr]
+    constructor
+    · intro e; cases e
+    · rintro (⟨u, hu⟩ | ⟨f, hf, hq⟩)
+      · rw [hnoh u] at hu; cases hu
+      · rw [hallp f hf] at hq; cases hq
+  · intro hd; rw [hdang] at hd; cases hd
+  · intro u fid' sz' hu; have := hnoh u; rw [hu] at this; cases this
+  · intro u fid' sz' hu; have := hnoh u; rw [hu] at this; cases this
+
+theorem minv_stepGoFail {s : State} (h : MInv s) (t : Nat) : MInv (stepGoFail s t).1 := by
+  unfold stepGoFail
+  cases ht : s.pc t with
+  | idle => simp only []; rw [show stepGo s t = (s, Res.skip) by unfold stepGo; rw [ht]]; exact h
+  | needDel fid sz => exact minv_stepGo h t
+  | needNew fid sz => exact minv_go_fail_new h t fid sz ht rfl rfl rfl rfl rfl rfl (fun u => rfl)
+  | needPriv fid sz =>
+    exact minv_pc_nonholder h t Pc.idle rfl (by rw [ht]; rfl) rfl rfl rfl rfl rfl rfl (fun u => rfl)
+
 theorem minv_stepFree {s : State} (h : MInv s) (id : Nat) : MInv (stepFree s id).1 := by
   unfold stepFree
   cases hfind : s.frames.find? (fun f => f.id == id) with
@@ -660,9 +714,10 @@ theorem minv_step {s : State} (h : MInv s) (t : Nat) (a : Act) : MInv (step s t 
     | alloc sz => exact minv_stepBegin h t sz ht
     | free id => exact minv_stepFree h id
     | go => exact h
-  | needDel fid sz => exact minv_stepGo h t
-  | needNew fid sz => exact minv_stepGo h t
-  | needPriv fid sz => exact minv_stepGo h t
+    | fail => exact h
+  | needDel fid sz => cases a <;> first | exact minv_stepGo h t | exact minv_stepGoFail h t
+  | needNew fid sz => cases a <;> first | exact minv_stepGo h t | exact minv_stepGoFail h t
+  | needPriv fid sz => cases a <;> first | exact minv_stepGo h t | exact minv_stepGoFail h t
 
 theorem minv_run {s : State} (h : MInv s) (sched : List (Nat × Act)) : MInv (run s sched) := by
   induction sched generalizing s with
